@@ -36,7 +36,8 @@ class Gen:
     def __init__(self, rng, *, engines, weights, max_ops=10, nleaves=(2, 3), flags_p=0.0, udf_p=0.0,
                  total_sort_p=0.5, pref_engines=None, leaf_payloads=("simrows", "seq", "map"),
                  bounds=("exact",), special_leaf_p=0.0, named_mat=True, max_rows=5, itonly_p=0.0,
-                 allow_pending_binary=0.05, hidden_p=0.0, zero_col_p=0.08, adjacent_p=0.0, ill_flags_p=0.5):
+                 allow_pending_binary=0.05, hidden_p=0.0, zero_col_p=0.08, adjacent_p=0.0, ill_flags_p=0.5,
+                 nonkey_join_p=0.0):
         self.rng = rng
         self.engines = engines
         self.weights = weights
@@ -56,10 +57,12 @@ class Gen:
         self.hidden_p = hidden_p
         self.zero_col_p = zero_col_p
         self.adjacent_p = adjacent_p
+        self.nonkey_join_p = nonkey_join_p
         self.ill_flags_p = ill_flags_p
         self.force_last = False
         self.last_kind = None
         self.preds = []
+        self.cur_eng = None
         self.pool: list[Shadow] = []
         self.ops: list[dict] = []
         self.nmat = 0
@@ -78,6 +81,8 @@ class Gen:
             return ["neg", self.expr(cols, depth - 1, need_ref)]
         if k < 0.15 + self.udf_p:
             name = "itonly" if r.random() < self.itonly_p else r.choice(["inc", "dbl"])
+            if self.cur_eng == "it2" and r.random() < 0.4:
+                name = "only2"
             return ["udf", name, self.expr(cols, depth - 1, need_ref)]
         op = r.choice(["add", "sub", "mul"])
         a = self.expr(cols, depth - 1, need_ref)
@@ -244,6 +249,14 @@ class Gen:
     def step(self):
         r = self.rng
         kinds = list(self.weights)
+        if self.ops and self.ops[-1]["k"] in ("proj", "sel", "dedup", "sort", "slice") and "pe" not in self.ops[-1] \
+                and self.ops[-1]["k"] in self.weights and r.random() < 0.04:
+            # the very same operation (same object, see executor.shared_apply) applied twice in a row
+            prev = self.ops[-1]
+            prev["shared"] = True
+            self.ops.append({**prev, "t": len(self.pool) - 1})
+            self.pool.append(self.pool[-1].copy())
+            return
         if self.adjacent_p and self.last_kind in ("calc", "proj", "sel", "dedup", "sort", "slice") and r.random() < self.adjacent_p:
             k = self.last_kind if r.random() < 0.7 else r.choice(["proj", "slice", "sort", "sel"])
             self.force_last = True
@@ -279,7 +292,9 @@ class Gen:
             return
         tag = self.rng.choice(free)
         fl = self.flags(sh)
+        self.cur_eng = sh.eng if not fl else None
         e = self.expr(sh.cols, 2, True)
+        self.cur_eng = None
         self.ops.append({"k": "calc", "t": i, "tag": tag, "e": e, **fl})
         self.pool.append(sh.copy(cols=sh.cols | {tag}, eng=self._after_flags(sh, fl)))
 
@@ -424,6 +439,15 @@ class Gen:
         if i is None:
             return
         l = self.pool[i]
+        if self.nonkey_join_p and r.random() < self.nonkey_join_p:
+            # explicit max_columns naming a shared non-key column: the resolved common columns must still be keys
+            cand = [k for k in range(len(self.pool)) if k != i and (self.pool[k].cols & l.cols & {"u", "v", "z", "w"})]
+            if cand:
+                j = r.choice(cand)
+                rr = self.pool[j]
+                self.ops.append({"k": "join", "l": i, "r": j, "p": None, "cmax": sorted(l.cols & rr.cols)})
+                self.pool.append(Shadow(l.cols | rr.cols, rr.eng, leaves=l.leaves | rr.leaves))
+                return
         self_ok = r.random() < 0.1         # joins reading one table twice hit known finding F15: keep them rare
         ok = lambda s: not ((s.cols & l.cols) & {"u", "v", "z", "w"}) and (not s.pending or r.random() < self.allow_pending_binary) \
             and (self_ok or not (s.leaves & l.leaves))
@@ -588,7 +612,7 @@ class Gen:
                         base["bt"], base["tr"] = False, False
                 edit = "unsupported"
         elif kind == "proj" and missing:
-            base["cols"] = sorted(set(base["cols"]) | {r.choice(missing)})
+            base["cols"] = sorted(set(base["cols"]) | set(r.sample(missing, min(len(missing), r.choice([1, 2, 3])))))
             edit = "missing"
         elif kind == "sel":
             shared = [p for p in self.preds if not self._pcols(p) <= tgt.cols]
